@@ -186,8 +186,21 @@ def bigprod(I, body_fn, n):
         q.links.append(f(z3.IntVal(0)) == 1)
         q.foralls.append((None, lambda t: f(t + 1) == f(t) * body_fn(t)))
         I.ghost.setdefault("bigprod_bodies", {})[f.name()] = (f, body_fn)
+        # cons lemma: the product over [a] ++ L is a times the product over L
+        body = z3.simplify(body_fn(IDX))
+        if z3.is_app(body) and body.decl().kind() == z3.Z3_OP_ITE and z3.is_eq(body.arg(0)):
+            c = body.arg(0)
+            sides = [c.arg(0), c.arg(1)]
+            if any(x.get_id() == IDX.get_id() for x in sides) and any(z3.is_int_value(x) and x.as_long() == 0 for x in sides):
+                head, tail = body.arg(1), body.arg(2)
+                tail_fn = lambda t, tail=tail: z3.simplify(z3.substitute(tail, (IDX, z3.simplify(t + 1))))
+                I.ghost.setdefault("cons_lemmas", []).append((f, head, tail_fn))
     if all(not (a[1].name() == f.name() and z3.simplify(a[3]).get_id() == z3.simplify(n).get_id()) for a in q.big_apps):
         q.big_apps.append(("bigprod", f, body_fn, n))
+        for (cf, head, tail_fn) in list(I.ghost.get("cons_lemmas", [])):
+            if cf.name() == f.name():
+                g = bigprod(I, tail_fn, z3.simplify(n - 1))
+                q.links.append(z3.Implies(n >= 1, f(n) == head * g))
     return f(n)
 
 
@@ -248,17 +261,15 @@ def skolem_subset(I, A, B, tag):
     return z3.Implies(sym.member(n, A), sym.member(n, B))
 
 
+def without_entry(body_fn, i):
+    """Element function of the list with its i-th entry removed: u |-> body(u) if u < i else body(u+1)."""
+    return lambda u: z3.If(u < i, body_fn(u), body_fn(z3.simplify(u + 1)))
+
+
 def bigprod_without(I, body_fn, i, n):
-    """prod_{j<n, j != i} body(j): the product over the list with its i-th entry removed,
-    i.e. over the list  j |-> body(j) for j < i, body(j+1) for j >= i  of length n-1."""
-    # keyed by the body; i is an argument of the resulting function
-    body = z3.simplify(body_fn(IDX))
-    key = ("bigprodwo", body.sexpr())
-    if key not in _BIG:
-        f = z3.Function(f"bigprodwo#{len(_BIG)}", sym.I, sym.I, sym.R)
-        _BIG[key] = (f, body)
-    f = _BIG[key][0]
-    return f(i, n)
+    """prod_{j<n, j != i} body(j): the product over the list (of length n-1) with the i-th entry
+    removed."""
+    return bigprod(I, without_entry(body_fn, i), z3.simplify(n - 1))
 
 
 def bighash(I, body_fn, n):
